@@ -36,7 +36,7 @@ def grid():
     for det in ("sbs", "cbs"):
         for m in [0, 1, 2, 3, 5]:
             for mx in sorted({2 * m - 1, 2 * m, 2 * m + 1, 200}):
-                for g in [1.0, 1.01, 1.05, 1.1, 1.3, 2.0, 2.1]:
+                for g in [1.0, 1.0000000000000002, 1.01, 1.05, 1.1, 1.3, 2.0, 2.1]:  # incl. the float next above 1
                     for sc in [0.0, None] + ([-0.5] if g == 1.3 else []):
                         out.append({"det": det, "scale": sc, "level": 0.1, "m": m, "mx": mx, "g": g})
         for lev in [0.0, 1.0, -0.1]:
